@@ -345,3 +345,40 @@ def rewrite_source(src, seed, kinds=KINDS, p=0.35, signatures=None, own_module=N
   out = ast.unparse(tree) + '\n'
   compile(out, '<variant>', 'exec')
   return out, rw.log
+
+
+# ------------------------------------------------------------------ variants of a whole tree
+def package_sources(repo, pkg='dinosaur'):
+  import os
+  out = {}
+  for root, dirs, files in os.walk(os.path.join(repo, pkg)):
+    for fn in sorted(files):
+      if fn.endswith('.py') and not fn.endswith('_test.py'):
+        p = os.path.join(root, fn)
+        out[os.path.relpath(p, repo)] = open(p, encoding='utf-8').read()
+  return out
+
+
+def make_variant(repo, seed, root, nmods='all', kinds=KINDS, p=0.35, only=None, pkg='dinosaur'):
+  """Writes a behaviour-preserving rewrite of the package under `root`; returns (rewritten files, {file: log})."""
+  import os
+  import shutil
+  srcs = package_sources(repo, pkg)
+  trees = {os.path.basename(r)[:-3]: ast.parse(s) for r, s in srcs.items() if os.path.dirname(r) == pkg}
+  sigs = signatures_of(trees)
+  rng = random.Random(seed)
+  rels = sorted(r for r in srcs if not r.endswith('__init__.py'))
+  if only:
+    chosen = [r for r in rels if os.path.basename(r)[:-3] in only]
+  elif nmods == 'all':
+    chosen = rels
+  else:
+    chosen = rng.sample(rels, min(int(nmods), len(rels)))
+  shutil.copytree(os.path.join(repo, pkg), os.path.join(root, pkg), ignore=shutil.ignore_patterns('__pycache__', '*.pyc', '*_test.py', 'data'))
+  logs = {}
+  for r in chosen:
+    new, log = rewrite_source(srcs[r], rng.randrange(1 << 30), kinds, p, sigs, own_module=os.path.basename(r)[:-3])
+    with open(os.path.join(root, r), 'w', encoding='utf-8') as f:
+      f.write(new)
+    logs[r] = log
+  return chosen, logs
